@@ -222,3 +222,19 @@ Proof. vm_compute. reflexivity. Qed.
 (* why provider texts must not end with a lone '$': it forms a NEW reference with what follows in the host *)
 Example ex_formed_reference : rs "${env:DOL}{env:A}" = Ok (CStr (L"va")).
 Proof. vm_compute. reflexivity. Qed.
+
+(* the same source listed again after a conflicting one is merged again: [A; B; A] is not [A; B] *)
+Example ex_source_listed_again :
+  let A := CMap [(L"k", CInt 1); (L"m", CMap [(L"x", CInt 1)])] in
+  let B := CMap [(L"k", CInt 2); (L"m", CMap [(L"x", CInt 2); (L"y", CInt 2)])] in
+  resolve env retr [A; B; A] = Ok (CMap [(L"k", CInt 1); (L"m", CMap [(L"x", CInt 1); (L"y", CInt 2)])]) /\
+  resolve env retr [A; B] = Ok (CMap [(L"k", CInt 2); (L"m", CMap [(L"x", CInt 2); (L"y", CInt 2)])]).
+Proof. split; vm_compute; reflexivity. Qed.
+
+(* a provider text that is the YAML null scalar: value nil, text "null"; a string field receives the text,
+   every other target the zero value *)
+Example ex_null_text :
+  let v := CExp CNil (L"null") in
+  decode_string_field v = Some (L"null") /\ decode_int_field v = Some (Some 0%Z) /\
+  decode_strlist_field v = Some [] /\ decode_strmap_field v = Some [] /\ sanitize v = CNil.
+Proof. repeat split. Qed.
